@@ -173,6 +173,18 @@ def _body_shape(method, body, target, what):
     """returns (if statement, index of if, index of listener call)"""
     params = [p.get('name') for p in kids(method) if p.get('kind') == 'ParmVarDecl']
     stmts = kids(body)
+    # `const bool name = TEST; if(name) …` is `if(TEST) …`: a test named in a local right in front of the if that uses it
+    named = {}
+    if len(stmts) == 3:
+        for i in range(len(stmts) - 1):
+            d, nxt = stmts[i], strip(stmts[i + 1])
+            vs = [v for v in kids(d) if v.get('kind') == 'VarDecl'] if d.get('kind') == 'DeclStmt' else []
+            if len(vs) == 1 and kids(vs[0]) and nxt.get('kind') == 'IfStmt' and kids(nxt):
+                c = strip(kids(nxt)[0])
+                if c.get('kind') == 'DeclRefExpr' and (c.get('referencedDecl') or {}).get('id') == vs[0].get('id'):
+                    named[(nxt.get('range') or {}).get('begin', {}).get('offset')] = kids(vs[0])[-1]
+                    stmts = stmts[:i] + stmts[i + 1:]
+                    break
     if len(stmts) != 2:
         raise Untranslatable('%s::operator(): expected two statements, found %d' % (what, len(stmts)))
     ifs = [i for i, s in enumerate(stmts) if strip(s).get('kind') == 'IfStmt']
@@ -189,7 +201,8 @@ def _body_shape(method, body, target, what):
     if st.get('hasElse') or len(ks) != 2:
         raise Untranslatable('%s::operator(): if statement with else / init' % what)
     _remove_call(ks[1], target)
-    return ks[0], ifs[0], 1 - ifs[0], params
+    cond = named.get((st.get('range') or {}).get('begin', {}).get('offset'), ks[0])
+    return cond, ifs[0], 1 - ifs[0], params
 
 
 def _counter(spec):
